@@ -64,6 +64,8 @@ def main():
             out.append(read(fn))
         else:
             out.append('### %s\n\n(no separate part)\n' % p)
+    if os.path.exists(os.path.join(PARTS, 'Glue.md')):
+        out.append(read('Glue.md'))
     out.append(seeded_table())
     out.append(read('_tail.md'))
     text = '\n'.join(out)
